@@ -72,6 +72,18 @@ CHECKS['C12'] = dict(
     technique='Lean 4 proof (BFS = permutation of pre-order descendants, by induction on fuel/height) + correspondence on exported real trees + run-time shape checks',
     ref='DESIGN.md section 5, C12')
 
+CHECKS['C19'] = dict(
+    text='Lean 4 theorems for every tree and configuration: the entries collected while rendering are exactly the '
+         'headings (ATX and setext, at any nesting depth) in document pre-order that pass the depth / omit_title / '
+         'filter test, and the list lines handed to the tokenizer are indented by 4*(level-base). The model (incl. the '
+         'tag-stripping regex) is tied to the real TocRenderer._headings on outline documents and arbitrary documents. '
+         'That the indented list lines parse to a list nested by level is a block-parser statement: explored on the '
+         'implementation against the generator outline (partial, named in the evidence).',
+    note='Trusted: Lean kernel (axioms propext/Classical.choice/Quot.sound at most); correspondence harness; filters are '
+         'substring predicates. A document without qualifying headings is outside the claim.',
+    technique='Lean 4 proof (structural induction: collection = filtered pre-order of headings) + correspondence of _headings + outline-oracle exploration of toc nesting',
+    ref='DESIGN.md section 5, C19')
+
 NOT_YET = {}
 
 
